@@ -48,16 +48,25 @@ def run(prop, tier):
         res = run_cases(camx.case_cuts, args, timeout=900, per_child=5,
                         chunksize=1)
         traces += res
+        # a file of realistic size (about 1 MB): cuts around step boundaries,
+        # read-only and update mode
+        big = camx.emit_layouts(out, tier, prop + ' large file', family='big')
+        res = run_cases(camx.case_bigcuts,
+                        [(300000 + i, it) for i, it in enumerate(big)],
+                        timeout=900, per_child=1)
+        traces += res
     for t in traces:
         if '_crash' in t or '_hang' in t:
             raise Machinery('CAMx case failed: %r' % (t,))
     if prop == 'C14':
         out.cov['evaluations'] = sum(len(t['obs']) for t in traces)
+        out.cov['large_file_cuts'] = sum(len(t['obs']) for t in traces
+                                         if t['kind'] == 'bigcuts')
         out.cov['distinct_nontrivial'] = sum(
             1 for t in traces for o in t['obs'] if o['n'] > 0)
         out.cov['rule'] = ('a case is one (configuration, cut offset); '
                            'non-trivial = non-empty prefix; all distinct')
-        for t in traces[:1]:
+        for t in traces[:1] + traces[-1:]:
             out.sample({'cfg': {k: t['cfg'][k] for k in ('nx', 'ny', 'nz',
                                                          'nt', 'spc')},
                         'outcomes': [[o['n'], o['k'], o['steps']]
